@@ -36,7 +36,7 @@ def run(m):
     sc = scratch()
     base = m.get('base')
     if base:
-        bp = os.path.join(HERE, 'refactors', base + '.diff')
+        bp = os.path.join(HERE, base + '.diff') if '/' in base else os.path.join(HERE, 'refactors', base + '.diff')
         subprocess.check_call(['patch', '-p1', '-s', '-i', bp], cwd=os.path.join(sc, 'repo'), stdin=subprocess.DEVNULL)
     try:
         return run1(m, sc)
